@@ -92,18 +92,26 @@ theorem specOK_wf (conv : Str)
 
 /-! ### the reference semantics -/
 
-variable (cfg : Cfg) (prim : Str → PVal → Str) (shw : Obj → Out → Out × Outcome)
+variable (cfg : Cfg) (prim : Prim) (shw : Obj → Out → Out × Outcome)
 
-theorem action_not_oob (hs : ∀ a o, (shw a o).2 ≠ .oob) (k : Kind) (buf : Str) (a : Obj) (o : Out) :
+theorem call_not_oob (hg : prim.Guarded) (o : Out) (frag : Str) (v : PVal) : (o.call prim frag v).2 ≠ .oob := by
+  simp only [Out.call, Out.callOc]
+  split
+  · cases hs : o.sink with
+    | str s => simp [Sink.reject, hg s o.pos]
+    | file c => simp [Sink.reject]
+  · simp
+
+theorem action_not_oob (hg : prim.Guarded) (hs : ∀ a o, (shw a o).2 ≠ .oob) (k : Kind) (buf : Str) (a : Obj) (o : Out) :
     (action prim shw k buf a o).2 ≠ .oob := by
   cases k with
   | «show» => exact hs a o
-  | cstr => simp only [action]; split <;> simp
-  | cint => simp only [action]; split <;> simp
-  | cfloat => simp only [action]; split <;> simp
-  | obj => simp [action]
+  | cstr => simp only [action]; split <;> first | exact call_not_oob prim hg _ _ _ | simp
+  | cint => simp only [action]; split <;> first | exact call_not_oob prim hg _ _ _ | simp
+  | cfloat => simp only [action]; split <;> first | exact call_not_oob prim hg _ _ _ | simp
+  | obj => exact call_not_oob prim hg _ _ _
 
-theorem dispatch_not_oob (hs : ∀ a o, (shw a o).2 ≠ .oob) (c : Char) (buf : Str) (a : Obj) :
+theorem dispatch_not_oob (hg : prim.Guarded) (hs : ∀ a o, (shw a o).2 ≠ .oob) (c : Char) (buf : Str) (a : Obj) :
     ∀ (d : List (Matcher × Kind)) (o : Out), (dispatch prim shw d c buf a o).2 ≠ .oob := by
   intro d
   induction d with
@@ -113,7 +121,7 @@ theorem dispatch_not_oob (hs : ∀ a o, (shw a o).2 ≠ .oob) (c : Char) (buf : 
     obtain ⟨m, k⟩ := mk
     simp only [dispatch]
     split
-    · have := action_not_oob prim shw hs k buf a o
+    · have := action_not_oob prim shw hg hs k buf a o
       rcases hact : action prim shw k buf a o with ⟨o', oc⟩
       rw [hact] at this
       cases oc with
@@ -122,7 +130,7 @@ theorem dispatch_not_oob (hs : ∀ a o, (shw a o).2 ≠ .oob) (c : Char) (buf : 
       | oob => simp at this
     · exact ih o
 
-theorem refRun_not_oob (hs : ∀ a o, (shw a o).2 ≠ .oob) (args : List Obj) :
+theorem refRun_not_oob (hg : prim.Guarded) (hs : ∀ a o, (shw a o).2 ≠ .oob) (args : List Obj) :
     ∀ (segs : List Seg) (k : Nat) (o : Out), (refRun cfg prim shw args segs k o).2 ≠ .oob := by
   intro segs
   induction segs with
@@ -130,14 +138,30 @@ theorem refRun_not_oob (hs : ∀ a o, (shw a o).2 ≠ .oob) (args : List Obj) :
   | cons s r ih =>
     intro k o
     cases s with
-    | lit s => simpa [refRun] using ih k _
-    | pct => simpa [refRun] using ih k _
+    | lit s =>
+      simp only [refRun]
+      have := call_not_oob prim hg o s .none
+      rcases hc : o.call prim s .none with ⟨o', oc⟩
+      rw [hc] at this
+      cases oc with
+      | ok => simpa using ih k o'
+      | raised e => simp
+      | oob => simp at this
+    | pct =>
+      simp only [refRun]
+      have := call_not_oob prim hg o ['%', '%'] .none
+      rcases hc : o.call prim ['%', '%'] .none with ⟨o', oc⟩
+      rw [hc] at this
+      cases oc with
+      | ok => simpa using ih k o'
+      | raised e => simp
+      | oob => simp at this
     | spec b c =>
       simp only [refRun]
       cases args[k]? with
       | none => simp
       | some a =>
-        have := dispatch_not_oob prim shw hs c ('%' :: (b ++ [c])) a cfg.disp o
+        have := dispatch_not_oob prim shw hg hs c ('%' :: (b ++ [c])) a cfg.disp o
         rcases hd : dispatch prim shw cfg.disp c ('%' :: (b ++ [c])) a o with ⟨o', oc⟩
         rw [hd] at this
         simp only [hd]
@@ -146,12 +170,18 @@ theorem refRun_not_oob (hs : ∀ a o, (shw a o).2 ≠ .oob) (args : List Obj) :
         | raised e => simp
         | oob => simp at this
 
-/-- every specification that has an argument converts it without raising, whatever the destination -/
+/-- libc accepts every literal run and `%%`, and every specification that has an argument converts it without raising
+    (in particular libc accepts it), whatever the destination -/
 def AllOk (args : List Obj) : List Seg → Nat → Prop
   | [], _ => True
+  | .lit s :: r, k => prim.rej s .none = false ∧ AllOk args r k
+  | .pct :: r, k => prim.rej ['%', '%'] .none = false ∧ AllOk args r k
   | .spec b c :: r, k =>
     (∀ a, args[k]? = some a → ∀ o, (dispatch prim shw cfg.disp c ('%' :: (b ++ [c])) a o).2 = .ok) ∧ AllOk args r (k + 1)
-  | _ :: r, k => AllOk args r k
+
+theorem call_of_acc (o : Out) {frag : Str} {v : PVal} (h : prim.rej frag v = false) :
+    o.call prim frag v = (o.formatTo prim frag v, .ok) := by
+  simp [Out.call, Out.callOc, h]
 
 theorem refRun_outcome (args : List Obj) : ∀ (segs : List Seg) (k : Nat) (o : Out), AllOk cfg prim shw args segs k →
     k ≤ args.length →
@@ -163,8 +193,8 @@ theorem refRun_outcome (args : List Obj) : ∀ (segs : List Seg) (k : Nat) (o : 
   | cons s r ih =>
     intro k o hok hkl
     cases s with
-    | lit s => simpa [refRun, nspecs] using ih k _ hok hkl
-    | pct => simpa [refRun, nspecs] using ih k _ hok hkl
+    | lit s => simpa [refRun, nspecs, call_of_acc prim o hok.1] using ih k _ hok.2 hkl
+    | pct => simpa [refRun, nspecs, call_of_acc prim o hok.1] using ih k _ hok.2 hkl
     | spec b c =>
       simp only [refRun, nspecs]
       cases hk : args[k]? with
